@@ -5,6 +5,7 @@ import RactorModel.Lemmas.HandshakeProgress
 import RactorModel.Lemmas.NodeState
 import RactorModel.Lemmas.CheckSession
 import RactorModel.Lemmas.HandshakeDial
+import RactorModel.Lemmas.HandshakeFail
 
 /-!
 # C18 — duplicate connections converge on one and the same link
@@ -286,6 +287,37 @@ example :
     hsQuiescent (dRun .gt ops2).2 = true ∧ openOnA (dRun .gt ops2).2 = [c1] ∧ openOnB (dRun .gt ops2).2 = [c1] := by
   decide
 
+/-- **Never two links, never different links — whatever fails.** Late dials (`FOp.dial`), the
+election steps of both nodes (`FOp.hs`) AND either end of any connection going away at any time
+for a reason outside the election (`FOp.failA` / `FOp.failB`: transport failure, the session's own
+`CheckSession` failing or timing out so that it closes / stops itself), in any order: whenever such
+a run is at rest, both nodes hold the SAME connections, and at most ONE. What is lost compared to
+`late_dials_converge` is "at least one": if the elected link goes away after its competitors were
+closed, both nodes are left with no link until somebody dials again (example below; on the real
+code: finding F10, repaired). -/
+theorem with_failures_never_two_links (o : Ordering) (ho : o ≠ .eq) (ops : List FOp)
+    (hA : ((fDials ops).map (·.idA)).Nodup) (hB : ((fDials ops).map (·.idB)).Nodup)
+    (hq : hsQuiescent (fRun o ops) = true) :
+    openOnA (fRun o ops) = openOnB (fRun o ops) ∧ (openOnA (fRun o ops)).length ≤ 1 := by
+  have I0 : FInv ([] : List Link) := by
+    refine ⟨⟨?_, ?_⟩, ⟨?_, ?_⟩⟩ <;> simp [activeA, activeB]
+  have I := fRun_aux o ho ops [] I0 (by simpa using hA) (by simpa using hB)
+  exact I.atRest hq
+
+/-- what is lost: c0 is up on both nodes; c1 (lower nonce) is dialled and wins on node B, which
+closes c0; before node A gets to elect, its end of c1 gives up (`failA`): at rest NO link is left,
+although two connections existed — the model of finding F10. With a re-dial the nodes converge again. -/
+example :
+    let c0 : Conn := ⟨false, 9, 10, 20⟩
+    let c1 : Conn := ⟨false, 3, 11, 21⟩
+    let c2 : Conn := ⟨true, 5, 12, 22⟩
+    let ops : List FOp := [.dial c0, .hs (.authA 10), .hs (.authB 20), .dial c1, .hs (.authB 21),
+                           .failA 11, .hs (.seeA 10), .hs (.seeB 21)]
+    hsQuiescent (fRun .gt ops) = true ∧ openOnA (fRun .gt ops) = [] ∧ openOnB (fRun .gt ops) = [] ∧
+    hsQuiescent (fRun .gt (ops ++ [.dial c2, .hs (.authA 12), .hs (.authB 22)])) = true ∧
+    openOnA (fRun .gt (ops ++ [.dial c2, .hs (.authA 12), .hs (.authB 22)])) = [c2] := by
+  decide
+
 /-- (tie of the `authA` step to the `NodeServerState` model that the correspondence run compares
 with `node.rs`) `commit_authenticated` on node A's state — one registered session per connection
 open on A — elects among exactly the step's `activeA (markA w a)` and names as losers exactly the
@@ -474,6 +506,7 @@ end C18
 #print axioms C18.handshake_winner_is_the_elected_one
 #print axioms C18.handshake_comes_to_rest
 #print axioms C18.late_dials_converge
+#print axioms C18.with_failures_never_two_links
 #print axioms C18.commit_is_the_auth_step
 #print axioms C18.check_candidate_is_the_pre_step
 #print axioms C18.unauthenticated_cannot_influence_commit
